@@ -4,13 +4,18 @@ from symx.runner import Ob
 
 ID = "C24"
 TG = "breezy.tag"
-FUNCTIONS = [TG + ":_reconcile_tags", TG + ":InterTags.merge", TG + ":InterTags._merge_to"]
+FUNCTIONS = [TG + ":_reconcile_tags", TG + ":InterTags.merge", TG + ":InterTags._merge_to",
+             "breezy.bzr.tag:BasicTags._serialize_tag_dict", "breezy.bzr.tag:BasicTags._deserialize_tag_dict",
+             "breezy.bzr.tag:BasicTags._set_tag_dict", "breezy.bzr.tag:BasicTags.get_tag_dict"]
 STUBS = ["dict literals of the lifted module are association-list dictionaries (keys compared with ==)",
-         "tag selector = table of one symbolic boolean per source tag (or no selector)"]
+         "tag selector = table of one symbolic boolean per source tag (or no selector)",
+         "fastbencode.bencode / bdecode (compiled) -> python model for dictionaries bytes -> bytes, compared with the compiled "
+         "functions on sample dictionaries before each run"]
 ASSUMPTIONS = ["revision ids are compared only with ==, so unbounded integers stand for arbitrary ids",
                "tag names are short symbolic strings; equalities between names of the two dictionaries are decided by "
                "the solver"]
-OUTSIDE = ["storing / loading tag dictionaries (bencode, branch storage)", "InterTags.merge's master-branch handling",
+OUTSIDE = ["the compiled bencode implementation itself (replaced by a model compared with it before each run) and the "
+           "branch's tag file I/O", "InterTags.merge's master-branch handling",
            "dictionaries larger than the bound"]
 
 
@@ -213,9 +218,110 @@ def ob_inter_merge(cx):
     cx.observe("nupd", len(updates))
 
 
+BT = "breezy.bzr.tag"
+
+
+def m_bencode(d):
+    """model of fastbencode.bencode for a dictionary bytes -> bytes: keys in sorted order, LENGTH:BYTES items"""
+    out = b"d"
+    for k in sorted(d.keys()):
+        v = d[k]
+        out = out + str(len(k)).encode("ascii") + b":" + k + str(len(v)).encode("ascii") + b":" + v
+    return out + b"e"
+
+
+def m_bdecode(data):
+    """model of fastbencode.bdecode for what m_bencode produces (the lengths are concrete digits; contents may be symbolic)"""
+    def number(i):
+        j = i
+        while data[j:j + 1] != b":":
+            j += 1
+        return int(bytes(data[i:j])), j + 1
+    if data[0:1] != b"d":
+        raise ValueError("not a dictionary")
+    i, out = 1, []
+    while data[i:i + 1] != b"e":
+        n, i = number(i)
+        k = data[i:i + n]
+        i += n
+        n, i = number(i)
+        v = data[i:i + n]
+        i += n
+        out.append((k, v))
+    return out
+
+
+def setup_storage(ls):
+    import fastbencode
+    for d in ({}, {b"a": b"r1"}, {b"b": b"x", b"a": b"yy"}, {"é".encode(): b"r", b"e\xcc\x81": b"s"}, {b"": b""}):
+        if fastbencode.bencode(d) != m_bencode(d):
+            raise RuntimeError("bencode model differs on %r" % (d,))
+        if dict(m_bdecode(fastbencode.bencode(d))) != fastbencode.bdecode(fastbencode.bencode(d)):
+            raise RuntimeError("bdecode model differs on %r" % (d,))
+
+    class BE:
+        bencode = staticmethod(m_bencode)
+
+        @staticmethod
+        def bdecode(data):
+            pairs = m_bdecode(data)
+            from symx.containers import make_dict
+            return make_dict(pairs)
+    ls.modules[BT].bencode = BE
+
+
+def ob_storage(cx):
+    """BasicTags._set_tag_dict / get_tag_dict through the branch's tag bytes: a dictionary with symbolic unicode names
+    (composed and decomposed spellings of the same letter included) and symbolic revision ids is read back unchanged."""
+    B = cx.mod(BT)
+    T = cx.truth
+    n = cx.choose("ntags", 0, cx.p("n"))
+    ents = []
+    for i in range(n):
+        name = cx.str("name%d" % i, cx.choose("len%d" % i, 0, cx.p("lname")), cx.p("alpha"))
+        for o, _v in ents:
+            cx.assume(o != name)
+        ents.append((name, cx.bytes("rev%d" % i, 1, b"rs")))
+    d = SymDict(ents) if cx.sym else dict(ents)
+    stored = []
+
+    class Lock:
+        def __enter__(self):
+            return self
+
+        def __exit__(self, *a):
+            return False
+
+    class Branch:
+        lock_read = lock_write = staticmethod(lambda: Lock())
+
+        @staticmethod
+        def _set_tags_bytes(b):
+            stored.append(b)
+
+        @staticmethod
+        def _get_tags_bytes():
+            return stored[-1]
+    tags = B.BasicTags(Branch)
+    tags._set_tag_dict(d)
+    back = tags.get_tag_dict()
+    items = list(back.items())
+    cx.require(len(items) == n, "%d tags stored, %d read back" % (n, len(items)))
+    for name, rev in ents:
+        hit = [v for k, v in items if len(k) == len(name) and T(k == name)]
+        cx.require(len(hit) == 1, "tag %r is not read back under its own name" % (name,))
+        cx.require(T(hit[0] == rev), "tag %r is read back with another revision id" % (name,))
+    if n >= 2:
+        cx.cover("several")
+    if any(not all(T(ch < "\x80") for ch in name) for name, _r in ents):
+        cx.cover("non_ascii")
+    cx.observe("n", n)
+
+
 def obligations(tier):
     q = tier == "quick"
     p = dict(n=2 if q else 3, lname=2, alpha="abé", n_inter=1 if q else 2)
+    ps = dict(n=2, lname=2 if q else 3, alpha="ae\u00e9\u0301")
     lift = [(TG, dict(symdict=True))]
     to = 900 if q else 7200
     return [Ob("reconcile", ob_reconcile, lift, p, to, 2 if q else 1,
@@ -224,4 +330,8 @@ def obligations(tier):
                       "overwrite on/off, with and without selector" % p),
             Ob("inter_tags_merge", ob_inter_merge, lift, p, to, 2 if q else 1, ["master_updated", "conflict", "updated"],
                bounds="InterTags.merge over stub branches: <= %(n_inter)d tags in each of source / destination / master, "
-                      "overwrite, with/without master, ignore_master" % p)]
+                      "overwrite, with/without master, ignore_master" % p),
+            Ob("storage_roundtrip", ob_storage, [(BT, dict(symdict=True))], ps, to, 2 if q else 1, ["several", "non_ascii"],
+               setup=setup_storage,
+               bounds="<= %(n)d tags, names <= %(lname)d chars over 'a', 'e', U+00E9 and the combining accent U+0301 (composed "
+                      "and decomposed spellings), one-byte revision ids" % ps)]
